@@ -48,7 +48,25 @@ pub fn gen_pcase(c: &mut dyn Choices, max_depth: usize, full: bool) -> PCase {
 /// to be called with the *last* picks of a case (recorded tapes keep their meaning): one script in sixteen
 /// becomes long. Returns the number of steps put in front of the original script.
 pub fn maybe_lengthen(c: &mut dyn Choices, case: &mut PCase) -> usize {
-  if c.pick(16) == 15 {
+  // a flattening operator whose inner observables are hot inputs re-subscribes that input for every outer item: n items
+  // cost n^2 deliveries, two such operators n^4 (180 s and more for 60 items) - those pipelines keep their short scripts
+  let mut hot_flats = 0;
+  case.node.visit(&mut |n| {
+    if let Node::Flat(_, _, inners) = n {
+      let mut hot = false;
+      for i in inners {
+        i.visit(&mut |m| {
+          if let Node::Src(Src::Hot(_)) | Node::Src(Src::HotCreate(_)) | Node::Src(Src::Behavior(..)) = m {
+            hot = true
+          }
+        });
+      }
+      if hot {
+        hot_flats += 1;
+      }
+    }
+  });
+  if c.pick(16) == 15 && hot_flats < 2 {
     let old = case.script.len();
     case.script = lengthen_script(c, &case.script);
     case.script.len() - old
